@@ -211,7 +211,7 @@ class C15(ModelCheck):
     assumptions = ["event/state times keep >= 0.1 s distance from the call instant, the timeout and time-trigger deadlines"]
 
     def n_random(self, tier):
-        return {"quick": 1200, "thorough": 40000}[tier]
+        return {"quick": 2400, "thorough": 40000}[tier]
 
     def gen(self, R):
         return gen(R)
